@@ -258,6 +258,7 @@ def tasks_for(tier: str, seed: int = 0) -> List[Tuple]:
     items: List[Tuple] = [((s, d), k) for (s, d) in named for k in kinds]
     comp = cc.compound_pair_specs(2 if tier == "quick" else 3, core_only=True,
                                   limit=600 if tier == "quick" else 4000, seed=1)
+    comp = comp + cc.power_pair_specs((2, 3, -2) if tier == "thorough" else (2,), 0 if tier == "thorough" else 12)
     items += [((s, d), "float") for (s, d) in comp]
     if tier == "quick":
         items += [((s, d), k) for (s, d) in named[::7] for k in ("int", "dec")]
